@@ -12,7 +12,7 @@ ID = 'C09'
 LEAN_MODULES = ['Proofs.C09']
 REQUIRED = ['C09.wrap_range', 'C09.wrap_periodic', 'C09.wrap_spec', 'C09.ft_shapes',
             'C09.freq_is_scaled_gradient', 'C09.unwrap_wrap', 'C09.freq_is_gradient_of_unwrapped_output',
-            'C09.ft_scale_invariant', 'C09.hilbert_oracle_scale', 'C09.nht_oracle_scale',
+            'C09.ft_scale_invariant', 'C09.hilbert_oracle_scale', 'C09.nht_oracle_scale', 'C09.quad_oracle_scale',
             'C09.amplitudeNormalise_scale_free', 'C09.amplitudeNormalise_sign', 'C09.quad_unit_modulus',
             'C09.roundtrip_interior', 'C09.roundtrip_edges', 'C09.roundtrip_locally_const', 'C09.roundtrip_const']
 TRUSTED = [
